@@ -2,7 +2,7 @@ SPECIFICATION BSpec
 CONSTANTS
   System <- SysC20V3
   Alphabet <- AlphaC20V3
-  MaxLen = 9
+  MaxLen = 8
   Lint = TRUE
   SortVariant = "code"
   StaleOK = TRUE
